@@ -10,7 +10,7 @@
    `history_ok H tx cm n`: transactions 1..n read back through commit log cm from tx log tx are
    present, have ids 1..n without gap, each PrevAlh is the Alh recorded for its predecessor and each
    recorded Alh is the record's own (consistent hash chain). *)
-From V Require Import Crash.Protocol Crash.Theorems Crash.Refuted.
+From V Require Import Crash.Protocol Crash.Theorems Crash.Progress Crash.ValuesProofs Crash.Refuted Crash.Examples.
 
 (* Write ordering (ack_implies_durable, log part): in EVERY reachable state — any interleaving, any
    number of earlier crashes — every acknowledged transaction (id <= acked) has its commit-log entry
@@ -43,6 +43,89 @@ Theorem C03_crash_safety_partial :
       history_ok H (i_txl im) (i_cml im) (committed s').
 Proof. exact crash_safety_logs. Qed.
 Print Assumptions C03_crash_safety_partial.
+
+(* Write ordering, FULL statement (ack_implies_durable), for every state reachable from a fresh store
+   by any sequence of protocol steps (first incarnation): every acknowledged transaction has its
+   commit-log entry, its tx-log record AND its value-log extent inside the fsynced content of their
+   files (the value bytes hash to the digest stored in the record).  After a crash + recovery the
+   value part is no longer an invariant (refutation A below). *)
+Theorem C03_ack_implies_durable :
+  forall (H : bytes -> bytes), (forall x, length (H x) = 32%nat) ->
+  forall (c : cfg) (nv : nat) (s : st),
+    c_prealloc c = false -> 0 < c_thld c -> reach0 H c nv s ->
+    acked s <= committed s /\
+    history_ok H (durable (txl s)) (durable (cml s)) (acked s) /\
+    forall k, 1 <= k <= acked s -> values_durable_for H s k.
+Proof. exact ack_implies_durable. Qed.
+Print Assumptions C03_ack_implies_durable.
+
+(* ... hence after a FIRST crash (any crash image) the values of every acknowledged transaction are
+   in the value-log image and hash to the digest of the record. *)
+Theorem C03_crash_safety_values_first_crash :
+  forall (H : bytes -> bytes), (forall x, length (H x) = 32%nat) ->
+  forall (c : cfg) (nv : nat) (s : st) (im : images),
+    c_prealloc c = false -> 0 < c_thld c -> reach0 H c nv s -> crash s im ->
+    forall k, 1 <= k <= acked s ->
+      exists raw prev body n v vo vn hv img,
+        tx_at (i_txl im) (i_cml im) k = Some raw /\ parse_rec H raw = Some (k, prev, body, n) /\
+        body_vref body = Some (v, vo, vn, hv) /\ nth_error (i_vls im) (N.to_nat v) = Some img /\
+        vo + vn <= len img /\ H (slice img vo vn) = hv.
+Proof. exact crash_values_first_crash. Qed.
+Print Assumptions C03_crash_safety_values_first_crash.
+
+(* The machine accepts new commits from every idle reachable state whose hash tree is linked up to
+   the precommitted id — in particular from every recovered state (C03_crash_safety_partial gives
+   exactly these premises): (1) a sync cycle commits and acknowledges the reloaded backlog ... *)
+Theorem C03_backlog_is_committed :
+  forall (H : bytes -> bytes), (forall x, length (H x) = 32%nat) ->
+  forall (c : cfg) (nv : nat) (s : st),
+    c_prealloc c = false -> 0 < c_thld c -> reach H c nv s ->
+    phase_ s = PIdle -> committed s < precommitted s ->
+    exists s', run H s (sync_cycle nv) = Ok s' /\ reach H c nv s' /\
+      committed s' = precommitted s /\ acked s' = precommitted s /\ precommitted s' = precommitted s /\
+      phase_ s' = PIdle /\ asize s' = asize s.
+Proof. exact backlog_is_committed. Qed.
+Print Assumptions C03_backlog_is_committed.
+
+(* ... (2) a new transaction (values dd, payload) is precommitted, synced, acknowledged, and reads back
+   from the fsynced logs as exactly the record that was written.  Side conditions: below the
+   MaxActiveTransactions limit and inside the fixed-width fields of the formats. *)
+Theorem C03_accepts_new_commits :
+  forall (H : bytes -> bytes), (forall x, length (H x) = 32%nat) ->
+  forall (c : cfg) (nv : nat) (s : st) (dd payload : bytes) (f0 : file),
+    c_prealloc c = false -> 0 < c_thld c -> reach H c nv s ->
+    phase_ s = PIdle -> asize s = precommitted s -> precommitted s < committed s + c_maxact c ->
+    nth_error (vls s) 0 = Some f0 ->
+    precommitted s + 1 < 2 ^ 64 -> 121 + len payload < 2 ^ 32 -> pts s + 121 + len payload < 2 ^ 64 ->
+    f_offset f0 < 2 ^ 64 -> len dd < 2 ^ 32 ->
+    exists s',
+      run H s ([OVal 0 dd; OPre (length (inflight s)) payload] ++ sync_cycle nv) = Ok s' /\
+      reach H c nv s' /\ phase_ s' = PIdle /\
+      committed s' = precommitted s + 1 /\ acked s' = precommitted s + 1 /\
+      tx_at (durable (txl s')) (durable (cml s')) (precommitted s + 1) =
+        Some (enc_rec H (precommitted s + 1) (palh s) (enc_vref 0 (f_offset f0) (len dd) (H dd) ++ payload)).
+Proof. exact accepts_new_commits. Qed.
+Print Assumptions C03_accepts_new_commits.
+
+(* Crash DURING recovery: recovery interrupted after re-linking any number `upto` of hash-tree leaves
+   has written nothing to the tx, commit and value logs (its only effects there are in-memory
+   rewinds), so ANY crash image of the interrupted state has the same three logs, and recovering it
+   gives the same committed id, committed Alh, reloaded precommitted transactions, log positions and
+   log files as the uninterrupted recovery (both idle, tree linked up to the precommitted id). *)
+Theorem C03_crash_during_recovery :
+  forall (H : bytes -> bytes), (forall x, length (H x) = 32%nat) ->
+  forall (c : cfg) (nv : nat) (s : st) (im : images) (upto : nat) (s1 : st) (im' : images),
+    c_prealloc c = false -> 0 < c_thld c -> reach H c nv s -> crash s im ->
+    recover_upto H upto c im = Ok s1 -> crash s1 im' ->
+    i_txl im' = i_txl im /\ i_cml im' = i_cml im /\ i_vls im' = i_vls im /\
+    exists s2 sf,
+      recover H c im' = Ok s2 /\ recover H c im = Ok sf /\
+      committed s2 = committed sf /\ calh s2 = calh sf /\ pbuf s2 = pbuf sf /\ palh s2 = palh sf /\
+      pts s2 = pts sf /\ acked s2 = acked sf /\ txl s2 = txl sf /\ cml s2 = cml sf /\ vls s2 = vls sf /\
+      phase_ s2 = PIdle /\ phase_ sf = PIdle /\
+      asize s2 = precommitted s2 /\ asize sf = precommitted sf.
+Proof. exact crash_during_recovery. Qed.
+Print Assumptions C03_crash_during_recovery.
 
 (* REFUTED (known finding A): the FULL crash-safety statement also requires every committed
    transaction to have its values.  Recovery reloads precommitted transactions from the tx log
